@@ -13,9 +13,16 @@ DV = 1 << 20
 
 def _call(ra, op, via, keepdims=False):
     """the entry points named in the property's observe_at"""
-    uf = {"argmax": None, "argmin": None, "sum": np.add, "prod": np.multiply, "any": np.logical_or, "all": np.logical_and, "max": np.maximum, "min": np.minimum,
+    uf = {"mean": None, "argmax": None, "argmin": None, "sum": np.add, "prod": np.multiply, "any": np.logical_or, "all": np.logical_and, "max": np.maximum, "min": np.minimum,
           "bor": np.bitwise_or, "band": np.bitwise_and, "bxor": np.bitwise_xor}[op]
     kw = {"keepdims": True} if keepdims else {}
+    if op == "mean":
+        if via == "method":
+            return ra.mean(axis=-1, **kw)
+        if via == "np":
+            return np.mean(ra, axis=-1)
+        if via == "none":
+            return ra.mean()
     if op in ("argmax", "argmin"):
         if via == "method":
             return getattr(ra, op)(axis=-1, **kw)
@@ -49,7 +56,7 @@ def _dtype_p(p):
 def gen(E, p):
     import z3
     op = p["op"]
-    minlen = 1 if op in ("max", "min", "argmax", "argmin") else 0
+    minlen = 1 if op in ("max", "min", "argmax", "argmin", "mean") else 0
     R = E.concretize(E.int("R", p.get("Rmin", 0), p["R"]))
     lens = [E.int(f"l{r}", minlen, p["L"]) for r in range(R)]
     S = E.concretize(z3.Sum(lens) if lens else z3.IntVal(0))
@@ -92,6 +99,10 @@ def z3_fold(op, lens, data, dt):
             out.append(acc)
         elif op in ("max", "min"):
             out.append(("bound", inrow))
+        elif op == "mean":
+            # numpy's float division of the exact integer row sum by the row length (the quotient itself is numpy's C loop: uninterpreted)
+            fdiv = z3.Function("uf_idiv_f64", z3.IntSort(), z3.IntSort(), z3.BitVecSort(64))
+            out.append(fdiv(z3.Sum([z3.If(c, d, 0) for c, d in zip(inrow, data)]) if data else z3.IntVal(0), lens[r]))
     return out
 
 
@@ -200,6 +211,8 @@ def _pyfold(op, row, dt):
         return functools.reduce(lambda a, b: a ^ b, row, 0)
     if op == "band":
         return functools.reduce(lambda a, b: a & b, row, -1)
+    if op == "mean":
+        return common.cells(np.array([np.mean(np.array(row, dtype=dt))]))[0]
     if op == "argmax":
         return row.index(max(row))
     if op == "argmin":
@@ -211,6 +224,8 @@ def _res_dtype(op, dt):
         return "bool"
     if op in ("sum", "prod"):
         return "int64"
+    if op == "mean":
+        return "float64"
     return dt
 
 
@@ -237,6 +252,8 @@ def conc(case):
         vals = [_pyfold(case["op"], r, dt) for r in rows]
         exp = common.ref_array(vals, [len(rows), 1] if case["keepdims"] else [len(rows)], rd)
     # C05 claims the numbers; the element type of the result is C04's subject and not compared here
+    if case["op"] == "mean":
+        return got, exp, {"float_eq": True}
     return got, exp, {"dtype_matters": False}
 
 
@@ -260,6 +277,9 @@ def jobs(tier, seed):
                 continue
             out.append(dict(base, op=op, via=via, pre=pre, R=3, L=2 if q else 3))
     out.append(dict(base, op="sum", via="npnone"))
+    for via in ("method", "np", "none"):
+        out.append(dict(base, op="mean", via=via, Rmin=1, R=3))
+    out.append(dict(base, op="mean", via="method", keepdims=True, Rmin=1, R=3))
     for op in ("argmax", "argmin"):
         small = dict(R=2, L=3) if q else dict(R=3, L=3)
         for dt in ("int64", "uint8", "int8"):
